@@ -99,6 +99,10 @@ class FamList(list):
     """python list whose items may be FamItem (appended inside an abstract loop)"""
 
 
+class KeysV(list):
+    """the keys of a dict at the time of the call (set-like in comparisons)"""
+
+
 @dataclass(eq=False)
 class GenV:
     items: list  # list of values or FamItem
@@ -113,6 +117,7 @@ class SuperV:
 @dataclass(eq=False)
 class ShapeV:
     sh: Any
+    nd: int = 1  # number of dimensions: numpy 0-d scalar 0, numpy array 1, casadi matrix 2
 
 
 @dataclass(eq=False)
@@ -279,6 +284,27 @@ class Interp:
                     self.event("memoised", fi.node,
                                f"`{fi.qualname}` is memoised (@{dn}): its result is reused across steps "
                                "and network changes", data=fi.qualname)
+                    if dn in ("cache", "lru_cache") and not getattr(self, "_in_memo", False):
+                        # functools semantics: the first result (the same object) is handed to
+                        # every later caller with equal arguments
+                        def hk(x):
+                            try:
+                                hash(x)
+                                return ("v", x) if isinstance(x, (int, float, str, bool, type(None), tuple, frozenset)) else ("o", id(x))
+                            except TypeError:
+                                raise Raised("TypeError", node or fi.node, fi, "unhashable argument of a cached function")
+                        key = (fi.fq, id(fv.self_obj), tuple(hk(a) for a in args),
+                               tuple(sorted((k, hk(v)) for k, v in kwargs.items())))
+                        memo = self.__dict__.setdefault("_memo", {})
+                        if key in memo:
+                            return memo[key]
+                        self._in_memo = True
+                        try:
+                            r = self.call_function(fv, args, kwargs, node)
+                        finally:
+                            self._in_memo = False
+                        memo[key] = r
+                        return r
                 elif dn not in ("staticmethod", "classmethod", "property", "abstractmethod", "wraps",
                                 "cache", "lru_cache", "cached_property", "invalidate_cache", "setter",
                                 "override", "overload"):
@@ -357,11 +383,7 @@ class Interp:
             if p not in env:
                 j = i - (len(params) - ndef)
                 if j >= 0:
-                    self.stack.append(fr)
-                    try:
-                        env[p] = self.eval(defaults[j], fr)
-                    finally:
-                        self.stack.pop()
+                    env[p] = self._default_value(defaults[j], fr)
                 else:
                     self.event("call-shape", node or fi.node,
                                f"missing required argument `{p}` of {fi.qualname}")
@@ -371,12 +393,23 @@ class Interp:
             if x.arg not in env:
                 if d is None:
                     raise Raised("TypeError", node or fi.node, fi, f"missing kw-only {x.arg}")
-                self.stack.append(fr)
-                try:
-                    env[x.arg] = self.eval(d, fr)
-                finally:
-                    self.stack.pop()
+                env[x.arg] = self._default_value(d, fr)
         return env
+
+    def _default_value(self, dnode, fr):
+        """default values are evaluated once, when the function is defined: a mutable
+        default is one object shared by all calls"""
+        cache = self.__dict__.setdefault("_defaults", {})
+        if id(dnode) in cache:
+            return cache[id(dnode)][1]
+        self.stack.append(fr)
+        try:
+            v = self.eval(dnode, fr)
+        finally:
+            self.stack.pop()
+        if isinstance(v, (list, dict, set)):
+            cache[id(dnode)] = (dnode, v)
+        return v
 
     # --------------------------------------------------------- statements
     def exec_block(self, stmts, fr: Frame):
@@ -588,7 +621,14 @@ class Interp:
             if it.card == "many":
                 raise self.err(node, "abstract collection iterated in an unsupported context")
             return list(it.members)
-        if isinstance(it, (list, tuple, frozenset, set)):
+        if isinstance(it, (frozenset, set)):
+            # the iteration order of a set is unspecified: a legal order that is not the
+            # ascending one is used, so that code relying on "sets come out sorted" shows
+            try:
+                return sorted(it, reverse=True)
+            except TypeError:
+                return list(it)
+        if isinstance(it, (list, tuple)):
             return list(it)
         if isinstance(it, str):
             return list(it)
@@ -1132,9 +1172,9 @@ class Interp:
             return self.cmp_absint(op, a, b, node)
         if isinstance(a, ShapeV) and isinstance(b, ShapeV):
             if isinstance(op, ast.Eq):
-                return a.sh == b.sh
+                return a.sh == b.sh and a.nd == b.nd
             if isinstance(op, ast.NotEq):
-                return a.sh != b.sh
+                return not (a.sh == b.sh and a.nd == b.nd)
         if isinstance(a, TV) or isinstance(b, TV):
             if a is None or b is None:
                 # `x == None` style comparisons: identity semantics
@@ -1149,6 +1189,13 @@ class Interp:
             return TV(("cmp", name, ta.t, tb.t), max(ta.rank or 0, tb.rank or 0))
         if isinstance(a, ClassV) and isinstance(b, ClassV) and isinstance(op, (ast.Eq, ast.NotEq)):
             return (a.fq == b.fq) == isinstance(op, ast.Eq)
+        if (isinstance(a, KeysV) and isinstance(b, (KeysV, set, frozenset))) or \
+                (isinstance(b, KeysV) and isinstance(a, (set, frozenset))):
+            # dict views compare like sets
+            try:
+                a, b = set(a), set(b)
+            except TypeError:
+                raise self.err(node, "unhashable keys")
         try:
             if isinstance(op, ast.Eq):
                 return a == b
@@ -1287,7 +1334,8 @@ class Interp:
         if isinstance(o, TV):
             if attr == "shape":
                 try:
-                    return ShapeV(E.shape(o.t, self.world.env if self.world else E.Env()))
+                    return ShapeV(E.shape(o.t, self.world.env if self.world else E.Env()),
+                                  2 if self.lib == "casadi" else (0 if o.rank == 0 else 1))
                 except E.ShapeError as e:
                     self.event("shape-mismatch", node, str(e))
                     raise Raised("ValueError", node, fr.fi, str(e))
@@ -1360,6 +1408,14 @@ class Interp:
         if isinstance(c, ClassV):
             return c  # Generic[...] subscription
         k = self.eval(n.slice, fr)
+        if isinstance(c, ShapeV):
+            if not isinstance(k, int) or isinstance(k, bool):
+                raise self.err(n, "shape subscripted with a non-constant")
+            if not (-c.nd <= k < c.nd):
+                raise Raised("IndexError", n, fr.fi, f"tuple index out of range (a shape of {c.nd} dimensions)")
+            if c.nd == 2 and k in (1, -1):
+                return 1
+            return ("dim", c.sh)  # an opaque length: equal lengths compare equal
         if isinstance(c, dict):
             try:
                 if k in c:
@@ -1642,6 +1698,8 @@ class Interp:
                 return len(v)
             if isinstance(v, IndexSet):
                 return AbsInt(f"len({v.name})", link=v.link)
+            if isinstance(v, ShapeV):
+                return v.nd
             if isinstance(v, TV):
                 self.event("symbolic-len", n, "len() of a symbolic value")
                 raise self.err(n, "len of a symbolic value")
@@ -1813,6 +1871,21 @@ class Interp:
             items = self.iterate(args[0], n, fr)
             if all(isinstance(x, (int, float, str)) for x in items) and not kwargs:
                 return sorted(items) if name == "sorted" else list(reversed(items))
+            if name == "reversed" and not kwargs:
+                return list(reversed(items))
+            if name == "sorted" and set(kwargs) <= {"key", "reverse"}:
+                key = kwargs.get("key")
+                keys = [self.call(key, [x], {}, n, fr) for x in items] if key is not None else list(items)
+
+                def plain(k):
+                    return isinstance(k, (int, float)) or (isinstance(k, str) and k != "<sym>") or \
+                        (isinstance(k, tuple) and all(plain(y) for y in k))
+                if all(plain(k) for k in keys):
+                    try:
+                        order = sorted(range(len(items)), key=lambda i: keys[i], reverse=bool(kwargs.get("reverse")))
+                    except TypeError:
+                        raise Raised("TypeError", n, fr.fi, "unorderable sort keys")
+                    return [items[i] for i in order]
             raise self.err(n, f"{name}() over abstract values")
         if name == "type":
             o = args[0]
@@ -1825,6 +1898,10 @@ class Interp:
                 return str(v.attrs.get("name", v.ident))
             if isinstance(v, TV):
                 self.event("symbolic-format", n, "str() of a symbolic value")
+                if self.world is not None and hasattr(self.world, "str_of_symbol"):
+                    r = self.world.str_of_symbol(self, v, n)
+                    if r is not None:
+                        return r
                 return "<sym>"
             return str(v)
         if name == "id":
@@ -1847,6 +1924,36 @@ class Interp:
             canon = CASADI_ALIAS.get(fn_)
         else:
             canon = None
+        if lib == "numpy" and fn_ == "size" and len(args) == 1 and not kwargs:
+            v = args[0]
+            if isinstance(v, TV):
+                env = self.world.env if self.world else E.Env()
+                try:
+                    sh = E.shape(v.t, env)
+                except E.ShapeError as e:
+                    raise Raised("ValueError", n, fr.fi, str(e))
+                if sh == E.SC:
+                    return 1
+                if sh[0] == "tuple":
+                    return sh[1]
+                if sh[0] == "fam":
+                    return AbsInt("card")
+                if sh[0] == "seg":
+                    ln = E.seglen(sh, env)
+                    if isinstance(ln, int):
+                        return ln
+                    return AbsInt("segments", link=sh[1])
+                raise self.err(n, f"np.size of a value of shape {sh}")
+            if isinstance(v, (int, float)):
+                return 1
+            if isinstance(v, (list, tuple)) and all(
+                    isinstance(x, (int, float)) or (isinstance(x, TV) and self._is_scalar(x)) for x in v):
+                return self.call_builtin("len", [v], {}, n, fr)
+            if isinstance(v, (list, tuple, Coll)):
+                items = v if not isinstance(v, Coll) else None
+                if items is not None and any(isinstance(x, FamItem) for x in items):
+                    return AbsInt("card")
+            raise self.err(n, "np.size of an unsupported value")
         if canon is None:
             if self.world is not None:
                 r = self.world.call_ext(self, name, args, kwargs, n)
@@ -2082,7 +2189,7 @@ class BoundDictMethod:
         if self.name == "items":
             return list(d.items())
         if self.name == "keys":
-            return list(d.keys())
+            return KeysV(d.keys())
         if self.name == "values":
             return list(d.values())
         if self.name == "copy":
